@@ -285,6 +285,37 @@ pub fn count_definite_preemptions(p: &Program, hist: &[HEv]) -> Option<usize> {
     Some(count)
 }
 
+/// A result that one run finds and another does not: which results a run finds depends on the
+/// order of execution exactly where loom deviates from RC11 (known findings). The result may be
+/// one that is invalid but produced by K3, or a valid one that the other run loses to K5 / K8.
+/// Attributed the same way as in the validity / completeness oracles; `found_by` is the trace (with
+/// histories) of the run that found it.
+fn attribute_result_set_difference(p: &Program, outcome: &str, found_by: &Trace) -> Option<String> {
+    let i = found_by.outcomes.iter().position(|o| o == outcome)?;
+    let h = found_by.histories.get(i)?;
+    let may = MachineCfg::may();
+    if crate::oracle::replay_may(p, h, &may, false).is_err() {
+        let mut dev = may.clone();
+        dev.dev = crate::graph::Deviation { at_ignores_plain_stores: true };
+        if crate::oracle::replay_may(p, h, &dev, false).map(|a| !a.results.is_empty()).unwrap_or(false) {
+            return Some("K3-rmw-atomicity-vs-racing-store".to_string());
+        }
+        return None;
+    }
+    let target = crate::oracle::parse_outcome(p, outcome);
+    let mut d = MachineCfg::must();
+    d.rmw_reads_mo_max_only = true;
+    if crate::oracle::outcome_reachable(p, &d, &target, 3_000_000) == Some(false) {
+        return Some("K5-rmw-reads-only-latest-store".to_string());
+    }
+    let mut d = MachineCfg::must();
+    d.sc_load_skips_overwritten_sc_store = true;
+    if crate::oracle::outcome_reachable(p, &d, &target, 3_000_000) == Some(false) {
+        return Some("K8-seqcst-load-assumes-execution-order".to_string());
+    }
+    None
+}
+
 pub fn run_c15_case(p: &Program, cfg: &Config) -> CaseReport {
     let mut rep = base_report(p);
     let (r_inf, t_inf) = trace_run(p, cfg);
@@ -296,7 +327,7 @@ pub fn run_c15_case(p: &Program, cfg: &Config) -> CaseReport {
     }
     let total_ops = p.total_ops();
     let yields = p.threads.iter().flatten().any(|o| matches!(o.inner(), Op::Yield | Op::Await { .. } | Op::AwaitY { .. }));
-    let mut prev: Option<(usize, std::collections::BTreeSet<String>)> = None;
+    let mut prev: Option<(usize, Trace)> = None;
     let mut bounded_runs = 0u64;
     let mut pruned = 0u64;
     let mut checked_iters = 0u64;
@@ -341,21 +372,31 @@ pub fn run_c15_case(p: &Program, cfg: &Config) -> CaseReport {
         }
         // (b) monotone, and contained in the unbounded set
         if let Some(miss) = t.outcome_set.iter().find(|o| !t_inf.outcome_set.contains(*o)) {
-            rep.violations.push(viol("bound", format!("preemption_bound = {} finds outcome [{}] that the unbounded run does not", n, miss), json!({"bound": n})));
+            let mut v = viol("bound", format!("preemption_bound = {} finds outcome [{}] that the unbounded run does not", n, miss), json!({"bound": n}));
+            v.known = attribute_result_set_difference(p, miss, &t);
+            rep.violations.push(v);
         }
-        if let Some((pn, pset)) = &prev {
-            if let Some(miss) = pset.iter().find(|o| !t.outcome_set.contains(*o)) {
-                rep.violations.push(viol("bound", format!("outcome [{}] is found with preemption_bound = {} but not with {}", miss, pn, n), json!({"bound": n})));
+        if let Some((pn, ptrace)) = &prev {
+            if let Some(miss) = ptrace.outcome_set.iter().find(|o| !t.outcome_set.contains(*o)) {
+                let mut v = viol("bound", format!("outcome [{}] is found with preemption_bound = {} but not with {}", miss, pn, n), json!({"bound": n}));
+                v.known = attribute_result_set_difference(p, miss, ptrace);
+                rep.violations.push(v);
             }
         }
         // (c) a bound of at least the number of operations changes nothing
-        if n >= total_ops && t.outcome_set != t_inf.outcome_set {
-            rep.violations.push(viol("bound", format!("preemption_bound = {} >= {} operations, yet the result set differs from the unbounded one ({} vs {} outcomes)", n, total_ops, t.outcome_set.len(), t_inf.outcome_set.len()), json!({"bound": n})));
+        if n >= total_ops && t.outcome_set != t_inf.outcome_set && rep.violations.is_empty() {
+            let mut v = viol("bound", format!("preemption_bound = {} >= {} operations, yet the result set differs from the unbounded one ({} vs {} outcomes)", n, total_ops, t.outcome_set.len(), t_inf.outcome_set.len()), json!({"bound": n}));
+            // (only the direction unbounded -> bounded is left here; the other one is clause (b))
+            if let Some(miss) = t_inf.outcome_set.iter().find(|o| !t.outcome_set.contains(*o)) {
+                let (_, t_inf_full) = trace_run_opt(p, cfg, true);
+                v.known = attribute_result_set_difference(p, miss, &t_inf_full);
+            }
+            rep.violations.push(v);
         }
         if !rep.violations.is_empty() {
             break;
         }
-        prev = Some((n, t.outcome_set.clone()));
+        prev = Some((n, t));
     }
     rep.extra.insert("fault_bound_runs".into(), bounded_runs);
     rep.extra.insert("bound_pruned_some_iterations".into(), pruned);
